@@ -345,3 +345,40 @@ def product_jobs(factors: dict, base: dict, seed: int, limit=None, n_total=32, f
         lab = label_prefix + ",".join(f"{k}={v}" for k, v in zip(keys, combo))
         jobs.append({"conf": conf, "seed": seed * 1000 + i, "label": lab, "n_total": n_total, "flags": flags})
     return jobs
+
+
+# ------------------------------------------------------------------------------------------- --replay
+def replay(ck, pid, path):
+    """Re-execute a recorded violation. Supports trace-clause violations (key trace:<clause>: the run is recorded again
+    with the same configuration and seed and validated again) and pair violations (the two runs are executed again).
+    Exits 1 if the violation reproduces, 0 if not, 2 if the replay file is of another kind."""
+    import sys
+
+    with open(path) as f:
+        rep = json.load(f)
+    key, r = rep.get("key", ""), rep.get("replay", {})
+    if key.startswith("trace:") and r.get("conf") is not None:
+        clause = r["clause"]
+        job = {"conf": {k: v for k, v in r["conf"].items() if k in __import__("vlib.drivers", fromlist=["DEFAULTS"]).DEFAULTS},
+               "seed": r["seed"], "label": "replay", "n_total": r.get("n_total") or 32}
+        traces = run_jobs([job])
+        fails, _ = psrun.validate(traces)
+        hit = [f for f in fails if clause in f["clauses"]]
+        print(f"replay {path}: clause {clause} {'REPRODUCED at event ' + str(hit[0]['l']) if hit else 'did not reproduce'}")
+        if hit:
+            print(f"VIOLATION property={pid} replay={path}")
+        sys.exit(1 if hit else 0)
+    if ("a" in r and "b" in r) and isinstance(r["a"], dict) and "conf" in r["a"]:
+        from . import pairs
+
+        R = pairs.run_many([r["a"], r["b"]])
+        c = r.get("c", 0.0)
+        kind = "differ" if key.startswith("repro:differ") else "same"
+        P = [pairs.project_pair(R[0], R[1], kind=kind, c=c, exact=(c == 0.0))]
+        fails, _ = pairs.validate_pairs(P)
+        print(f"replay {path}: pair {'REPRODUCED ' + str(fails[0]['clauses']) if fails else 'did not reproduce'}")
+        if fails:
+            print(f"VIOLATION property={pid} replay={path}")
+        sys.exit(1 if fails else 0)
+    print(f"replay {path}: key {key!r} has no generic replay; re-run ./check {pid} (the check is deterministic for a given VERIF_SEED)")
+    sys.exit(2)
